@@ -8,7 +8,7 @@ Mirrors, as they are (quirks included):
         wildcard element → `"^" + Join(QuoteMeta(parts of Split(elem, "*")), ".*") + "$"` (since the fix of
         C13: before, the literal parts were not quoted), compiled and used with the UNANCHORED
         `Regexp.Match` against the alias names and table names of the org,
-        compile error → `[]`, plain element → alias lookup (`pres`, even with an empty target set) else the
+        compile error → `[]`, plain element → alias lookup (`pres`; an alias without index is no longer in the map, patch c20-2) else the
         element itself verbatim, empty result → the (stripped) expression itself unless excluded,
         result = sorted key set of a map;
       `isIndexExcluded` (l.768), `DeleteVirtualTable` (l.777, rewrites the org's table file without the name).
@@ -315,7 +315,7 @@ def isExcluded (n : Name) : Bool := excludedNames.contains (n.filter (· ≠ '*'
 structure AliasEntry where
   org : Org
   alias : Name
-  targets : List Name       -- may be empty (alias still present after RemoveAliases)
+  targets : List Name       -- may be empty (AddAliases then RemoveAliases: since patch c20-2 the alias is then gone from the map)
 deriving Repr, DecidableEq
 
 def tablesOf (org : Org) (tables : List (Org × Name)) : List Name :=
@@ -323,8 +323,11 @@ def tablesOf (org : Org) (tables : List (Org × Name)) : List Name :=
 
 def aliasesOf (org : Org) (aliases : List AliasEntry) : List AliasEntry := aliases.filter (·.org = org)
 
+/-- the alias is in `aliasToIndexNames[org]`.  Since patch c20-2 (`RemoveAliases` drops an inner map that became
+empty) an alias that lost its last index is no longer in the map: an entry without targets does not count
+(before the patch it did, and such a plain element expanded to nothing instead of to itself). -/
 def aliasPresent (org : Org) (a : Name) (aliases : List AliasEntry) : Bool :=
-  (aliasesOf org aliases).any (·.alias = a)
+  (aliasesOf org aliases).any (fun e => e.alias = a && !e.targets.isEmpty)
 
 def aliasTargets (org : Org) (a : Name) (aliases : List AliasEntry) : List Name :=
   ((aliasesOf org aliases).filter (·.alias = a)).flatMap (·.targets)
